@@ -86,7 +86,8 @@ class C16(MergeFamProp):
     ID = 'C16'
     VOCAB = G.Vocab(ops=True)
     RULE = ('a random plain base document followed by 1-3 stages made of !append / !extend / !prev operators at existing, missing, '
-            'list and non-list paths (top level and nested, several operators per stage, operators whose targets interact) plus plain '
+            'list and non-list paths (top level and nested: own paths of depth 1-4 below plain mappings, also missing and non-list paths '
+            'at depth >= 2 and in the second / third later stage; several operators per stage, operators whose targets interact) plus plain '
             'content at other paths; non-trivial = at least one operator addresses an existing path; distinct by SHA-1')
     ASSUMPTIONS = ['the reference interpreter applies the operators in document order on plain data and then merges the stage with the C02 update; '
                    'key order of mappings is not compared (a moved key is re-inserted at the end)']
@@ -96,9 +97,18 @@ class C16(MergeFamProp):
         return [
             D(M({'a': Q([S(1), S(2)]), 'b': M({'c': Q([S(3)])})}), M({'a': Q([S(9)], tag='append'), 'b': M({'c': Q([S(4), S(5)], tag='extend')})})),
             D(M({'a': M({'x': S(1), 'y': Q([S(2)])}), 'b': S(5)}), M({'q': Stext('a', 'prev')}), M({'q': M({'y': Q([S(7)], tag='append')})})),
+            D(M({'b': Q([S(1)]), 'c': S(2)}), M({'b': Q([S(2)], kw={'new': False})}), M({'b': Q([S(3)], tag='append')})),      # D51 (known finding)
             D(M({'a': S(1)}), M({'a': Q([S(2)], tag='append')})),
             D(M({'a': S(1)}), M({'a': Q([S(2)], tag='extend'), 'z': Q([S(3)], tag='extend')})),
             D(M({'a': Q([S(1)])}), M({'b': Stext('nope', 'prev')})),
+            # the examples of Props/C16_Pipeline.lean: operators two levels down in the third stage, three operators in one stage,
+            # missing / non-list paths at depth 2 (PremergeError for !append, plain list for !extend), a list parent
+            D(M({'a': M({'l': Q([S(1), S(2), S(3)]), 'x': S(5), 'm': M({'u': S(1)})}), 'b': S(7)}), M({'a': M({'y': S(6)})}),
+              M({'a': M({'l': Q([S(8)], tag='append'), 'n': Q([S(9)], tag='extend')}), 'q': Stext('a.m', 'prev'), 'c': S(1)})),
+            D(M({'a': M({'l': Q([S(1)]), 'x': S(5)})}), M({'a': M({'y': S(6)})}), M({'a': M({'n': M({'n': Q([S(8)], tag='append')})})})),
+            D(M({'a': M({'l': Q([S(1)]), 'x': S(5)})}), M({'a': M({'y': S(6)})}), M({'a': M({'x': Q([S(8)], tag='append')})})),
+            D(M({'a': M({'l': Q([S(1)]), 'x': S(5)})}), M({'a': M({'y': S(6)})}), M({'a': M({'x': Q([S(8)], tag='extend'), 'n': M({'n': Q([S(9)], tag='extend')})})})),
+            D(M({'t': Q([Q([S(1)]), Q([S(2)]), Q([S(3)])]), 'b': S(7)}), M({'q': M({'r': Stext('t[0]', 'prev')}), 'b': Stext('t[1]', 'prev')})),
         ]
 
     def gen_cases(self, rng, n, tier):
@@ -108,7 +118,7 @@ class C16(MergeFamProp):
             base = M([(k, gen_plain_value(rng, 3)) for k in rng.sample(['a', 'b', 'c', 'k', 'x', 'x.y', 'my-key', 'k 1'], rng.choice([2, 3, 4]))])
             docs = [{'raw': base}]
             cur = copy.deepcopy(plain_of(base))
-            for _s in range(rng.choice([1, 1, 2, 3])):
+            for _s in range(rng.choice([1, 1, 2, 2, 3])):
                 # paths of the current reference state (so later stages address moved / grown content)
                 paths = []
                 def coll(o, p):
@@ -119,19 +129,38 @@ class C16(MergeFamProp):
                         for i, v in enumerate(o): coll(v, p + [i])
                 coll(cur, [])
                 items = {}
-                for _o in range(rng.choice([1, 1, 2, 3])):
+                for _o in range(rng.choice([1, 1, 2, 2, 3])):
                     r = rng.random()
                     lists = [p for p, o in paths if p and isinstance(o, list) and all(isinstance(k, str) for k in p)]
                     anyp = [p for p, o in paths if p and all(isinstance(k, str) for k in p)]
+                    # mappings of the current state (the root included): a missing key below one of them is a missing
+                    # path at depth >= 2 (C16_append_at_path_missing / C16_extend_at_path_fallback at any depth)
+                    maps = [p for p, o in paths if isinstance(o, dict) and all(isinstance(k, str) for k in p)]
+                    deep_lists = [p for p in lists if len(p) >= 2]
+                    deep_other = [p for p, o in paths if len(p) >= 2 and not isinstance(o, list) and all(isinstance(k, str) for k in p)]
+                    def missing_path(name):
+                        base_p = rng.choice(maps) if maps else ()
+                        return tuple(base_p) + ((name,) if rng.random() < 0.7 else (name, name))
                     if r < 0.35:
-                        p = rng.choice(lists) if lists and rng.random() < 0.8 else (rng.choice(anyp) if anyp and rng.random() < 0.6 else ('nolist',))
+                        x = rng.random()
+                        if deep_lists and x < 0.25: p = rng.choice(deep_lists)
+                        elif deep_other and x < 0.33: p = rng.choice(deep_other)
+                        elif x < 0.42: p = missing_path('nolist')
+                        else: p = rng.choice(lists) if lists and rng.random() < 0.8 else (rng.choice(anyp) if anyp and rng.random() < 0.6 else ('nolist',))
                         leaf = Q([gen_plain_value(rng, 1) for _ in range(rng.choice([0, 1, 2]))], tag='append')
                     elif r < 0.65:
-                        p = rng.choice(lists) if lists and rng.random() < 0.6 else (rng.choice(anyp) if anyp and rng.random() < 0.6 else ('fresh',))
+                        x = rng.random()
+                        if deep_lists and x < 0.2: p = rng.choice(deep_lists)
+                        elif deep_other and x < 0.32: p = rng.choice(deep_other)
+                        elif x < 0.45: p = missing_path('fresh')
+                        else: p = rng.choice(lists) if lists and rng.random() < 0.6 else (rng.choice(anyp) if anyp and rng.random() < 0.6 else ('fresh',))
                         leaf = Q([gen_plain_value(rng, 1) for _ in range(rng.choice([0, 1, 2]))], tag='extend')
                     elif r < 0.9:
                         src = rng.choice([pp for pp, o in paths if pp]) if len(paths) > 1 and rng.random() < 0.85 else ('missing', 'x')
-                        p = (rng.choice(['q', 'r', 'moved']),) if rng.random() < 0.7 else (rng.choice(anyp) + ('m',) if anyp else ('q',))
+                        x = rng.random()
+                        if x < 0.55: p = (rng.choice(['q', 'r', 'moved']),)
+                        elif x < 0.7: p = missing_path(rng.choice(['q', 'moved']))      # a new key at depth >= 2 (below an existing mapping)
+                        else: p = (rng.choice(anyp) + ('m',) if anyp and rng.random() < 0.7 else (rng.choice(anyp) if anyp else ('q',)))
                         leaf = Stext(NodePath.join_path(list(src)), 'prev')
                     else:
                         p = (rng.choice(['n1', 'n2']),)
@@ -176,10 +205,20 @@ class C16(MergeFamProp):
                 return f'expected a {exp_err} error (operator without a suitable previous value), got {json.dumps({k: v for k, v in cfg.items() if k != "log"})[:160]}'
             return None
         if 'ok' not in cfg:
-            return f'operators address existing content but the build failed: {json.dumps({k: v for k, v in cfg.items() if k != "log"})[:160]}'
+            # recorded finding D51: the previous list was written with an explicit !notnew of its own; the grown / moved list is
+            # set as a new child and its elements are refused (MergeError naming p[0])
+            def notnew_list(n):
+                return ('q' in n and (n.get('kw') or {}).get('new') is False) or any(notnew_list(c) for c in ([c for _, c in n['m']] if 'm' in n else n.get('q', [])))
+            tag = 'D51: ' if cfg.get('err') == 'merge' and cfg.get('notnew') and any(notnew_list(d['raw']) for d in case['docs']) else ''
+            return f'{tag}operators address existing content but the build failed: {json.dumps({k: v for k, v in cfg.items() if k != "log"})[:160]}'
         got = val_to_py(strip_ids(cfg['ok']))
         if unordered_py(got) != unordered_py(acc):
             return f'result differs from applying the operators in order: expected {json.dumps(acc, default=str)[:150]}, got {json.dumps(got, default=str)[:150]}'
+        return None
+
+    def finding_key(self, case, desc):
+        if desc and desc.startswith('D51'):
+            return 'operator-on-notnew-list'
         return None
 
     def nontrivial(self, case, io):
